@@ -80,6 +80,20 @@ Proof.
     exists m'. split; [exact Hm'|exact H1].
 Qed.
 
+Lemma nodup_app_left : forall (A : Type) (l1 l2 : list A), NoDup (l1 ++ l2) -> NoDup l1.
+Proof.
+  intros A l1; induction l1 as [|x r IH]; intros l2 H; [constructor|].
+  cbn in H. inversion H as [|? ? Hx Hr]; subst. constructor.
+  - intro Hin. apply Hx. apply in_or_app. left. exact Hin.
+  - eapply IH; eauto.
+Qed.
+
+Lemma nodup_app_right : forall (A : Type) (l1 l2 : list A), NoDup (l1 ++ l2) -> NoDup l2.
+Proof.
+  intros A l1; induction l1 as [|x r IH]; intros l2 H; [exact H|].
+  cbn in H. inversion H; subst. eapply IH; eauto.
+Qed.
+
 Lemma zmem_in : forall c l, zmem c l = true <-> In c l.
 Proof.
   intros c l. unfold zmem. rewrite existsb_exists. split.
@@ -111,9 +125,16 @@ Record GT (g : ghost) (ths : list trig) : Prop := mkGT {
 
 Lemma GT_init : GT (mkGh O [] [] [] [] [] [] [] [] false false) [].
 Proof.
-  constructor; cbn; try (intros; contradiction); try constructor.
-  - intros t H. rewrite get_nil in H. cbn in H. congruence.
+  constructor; cbn.
+  - constructor.
+  - intros x [].
+  - intros x [].
+  - constructor.
+  - intros t0 H. exfalso. apply H. destruct t0; reflexivity.
+  - intros x [].
+  - intros x [].
   - intros l1 a l2 b l3 H. destruct l1; discriminate.
+  - intros i [].
 Qed.
 
 (* GT only reads next, begun, linkU, linkL, acc *)
@@ -146,9 +167,9 @@ Proof.
         -- intro Hin. apply H3 in Hin. apply (Hfresh x Hin). reflexivity.
         -- intros y Hy _. apply H3 in Hy. specialize (H2 y Hy). cbn. exact H2.
       * unfold pc0. destruct (sp_high sp); discriminate.
-      * unfold pc0. destruct (sp_high sp) eqn:Eh; intros [X|X]; try discriminate; reflexivity.
+      * unfold x, pc0; cbn [tk_spec]. destruct (sp_high sp) eqn:Eh; intros [X|X]; try discriminate; reflexivity.
     + rewrite get_put_other in * by congruence.
-      destruct (H5 t0 Hpc) as (A & B & C & D & E). splits; auto.
+      destruct (H5 t0 Hpc) as (A & B & C & D & E). splits; auto. right. exact A.
   - intros y [Hy|Hy].
     + subst y. right. cbn [tk_prod]. rewrite get_put_same. cbn. unfold pc0. destruct (sp_high sp); auto.
     + destruct (H6 y Hy) as [L|[P Q]]; [left; exact L|].
@@ -168,9 +189,7 @@ Proof.
   destruct (H5 t Ht) as (A & B & C & D & E). rewrite Eth in A, B, C, D, E. cbn [t_pc t_task] in *.
   constructor; try assumption.
   - intros t0 Hpc. destruct (Nat.eq_dec t0 t) as [->|Hne].
-    + rewrite get_put_same in *. cbn [t_pc t_task]. splits; auto.
-      * discriminate.
-      * intros _. apply E. left. reflexivity.
+    + rewrite get_put_same in *. cbn [t_pc t_task]. splits; auto; try discriminate.
     + rewrite get_put_other in * by congruence. apply H5. exact Hpc.
   - intros y Hy. destruct (H6 y Hy) as [L|[P Q]]; [left; exact L|].
     destruct (Nat.eq_dec (tk_prod y) t) as [Ey|Hne].
@@ -180,7 +199,7 @@ Qed.
 
 Lemma in_linked_link : forall g q x y, In y (linked (gh_link g q x)) <-> In y (linked g) \/ y = x.
 Proof.
-  intros g q x y. unfold linked. destruct q; cbn; rewrite !in_app_iff; cbn; tauto.
+  intros g q x y. unfold linked. destruct q; cbn; rewrite !in_app_iff; cbn; intuition congruence.
 Qed.
 
 Lemma perm_linked_link : forall g q x, Permutation (linked (gh_link g q x)) (x :: linked g).
@@ -346,15 +365,15 @@ Proof.
   { intro Hin. apply in_map_iff in Hin. destruct Hin as [[q' y] [Ey Hy]]. unfold eid in Ey; cbn in Ey.
     pose proof (in_execq _ _ _ Hy) as Hq. unfold linked, ids in Hnd.
     destruct q, q'.
-    - rewrite H1 in Hnd. rewrite map_app in Hnd. apply NoDup_app_remove_r in Hnd.
-      rewrite <- map_app in Hnd. cbn [app] in Hnd.
+    - rewrite H1 in Hnd. rewrite map_app in Hnd. apply nodup_app_left in Hnd.
+      cbn [app] in Hnd.
       apply (nodup_map_app_disj _ _ tk_id (execq QU g) (x :: iu) y x Hnd Hq); [left; reflexivity|exact Ey].
     - apply (nodup_map_app_disj _ _ tk_id _ _ x y Hnd); [rewrite H1; apply in_or_app; right; left; reflexivity
                                                          |rewrite H2; apply in_or_app; left; exact Hq|congruence].
     - apply (nodup_map_app_disj _ _ tk_id _ _ y x Hnd); [rewrite H1; apply in_or_app; left; exact Hq
                                                          |rewrite H2; apply in_or_app; right; left; reflexivity|exact Ey].
-    - rewrite H2 in Hnd. rewrite map_app in Hnd. apply NoDup_app_remove_l in Hnd.
-      rewrite <- map_app in Hnd. cbn [app] in Hnd.
+    - rewrite H2 in Hnd. rewrite map_app in Hnd. apply nodup_app_right in Hnd.
+      cbn [app] in Hnd.
       apply (nodup_map_app_disj _ _ tk_id (execq QL g) (x :: il) y x Hnd Hq); [left; reflexivity|exact Ey]. }
   assert (Htr : ~ In (tk_id x) (map fst (g_traffic g))).
   { intro Hin. apply in_map_iff in Hin. destruct Hin as [[i c] [Ei Hi]]. cbn in Ei. subst i.
